@@ -1054,6 +1054,8 @@ impl<'a> Gen<'a> {
         }
         let reg = self.r.chance(1, 2);
         let (x, y) = if reg { (101u8, 100u8) } else { (99, 98) };
+        // the same 14-bit controller on every channel (sometimes the last one, 31)
+        let cn14 = if self.r.chance(1, 4) { 31 } else { self.r.below(32) as u8 };
         for &c in order.iter() {
             let v = self.value7(c);
             let w = self.value7(c);
@@ -1074,7 +1076,7 @@ impl<'a> Gen<'a> {
                     push(y, w);
                     push(38, w);
                 }
-                4 => push(v % 32, w),
+                4 => push(cn14, w),
                 _ => {
                     push(x, v);
                     push(y, w);
@@ -1100,7 +1102,7 @@ impl<'a> Gen<'a> {
         for &c in order.iter() {
             let cn = *self.r.pick(&[6u8, 38, 96, 6]);
             let v = self.value7(c);
-            self.ev.push(Ev::Feed { b: [0xB0 | c, if kind == 4 { 32 + v % 32 } else { cn }, v], repr });
+            self.ev.push(Ev::Feed { b: [0xB0 | c, if kind == 4 { 32 + cn14 } else { cn }, v], repr });
         }
         self.ev.push(Ev::Adv { ns: self.cfg.timeout_ns });
         for c in 0..16u8 {
